@@ -125,6 +125,7 @@ func c04(c *Ctx) {
 	// shared: ownership is given up only by the owner-checked release (writer set of IP.podID, C01.R4) —
 	// a repeated DEL cannot free an address another pod holds
 	c01R4(c)
+	c04R10(c)
 	// the centralized backend withdraws a queued teardown report under the key it was queued with
 	ruleMapKeyAgreement(c, "C04.R9", eniPkg, "CRDV2", "deletedPods", "the queue of teardown reports of the centralized IPAM backend (queued by DEL, withdrawn by a completed ADD, keyed by pod UID)")
 	ruleArgSwap(c, "C04.R8", c.P.AllFuncs(), "the whole module (the pod key namespace/name identifies the record and the owner of an address)")
@@ -852,4 +853,53 @@ func c04R7(c *Ctx) {
 		})
 	}
 	c.Floor("C04.R7", "acquisitions of the service lock", 3, n)
+}
+
+// R10: a repeated ADD goes back to the interface of the pod's record. setRequest pins the request to
+// the stored interface id; the id is taken from the record as it is — no test on other fields of the
+// record (an address of the other family that does not parse on a single-stack node) drops the pin.
+// Without it the pool offers the request to the interfaces in priority order and the pod gets a second
+// address while the first stays owned.
+func c04R10(c *Ctx) {
+	p := c.P
+	c.Rule("C04.R10", "the request of a repeated ADD carries the interface id of the stored resource unconditionally: every value stored into LocalIPRequest.NetworkInterfaceID from a stored item is that item's ENIID on every path")
+	fld := p.Field(eniPkg, "LocalIPRequest", "NetworkInterfaceID")
+	src := p.Field("types/daemon", "ResourceItem", "ENIID")
+	if fld == nil || src == nil {
+		c.Unres("C04.R10", "LocalIPRequest.NetworkInterfaceID / ResourceItem.ENIID", "not found")
+		return
+	}
+	n := 0
+	for _, s := range p.StoresTo(p.FuncsInPkg(daemonPkg), fld) {
+		if s.RHS == nil || s.InLit {
+			continue
+		}
+		fn := s.Fn
+		info := fn.Info()
+		n++
+		var bad []string
+		var follow func(x ast.Expr, depth int)
+		follow = func(x ast.Expr, depth int) {
+			x = ast.Unparen(x)
+			if fieldOf(info, x) == src {
+				return
+			}
+			if o := identObj(info, x); o != nil && depth < 4 {
+				defs := 0
+				for _, d := range varDefs(fn, o) {
+					if d.rhs != nil {
+						defs++
+						follow(d.rhs, depth+1)
+					}
+				}
+				if defs > 0 {
+					return
+				}
+			}
+			bad = append(bad, exprString(x))
+		}
+		follow(s.RHS, 0)
+		c.Check(len(bad) == 0, "C04.R10", fn.Key()+": the pinned interface is the record's", p.Pos(s.Node), fn.Key(), "every definition of the stored value is <item>.ENIID", "other values: "+strings.Join(bad, ", "))
+	}
+	c.Floor("C04.R10", "stores of LocalIPRequest.NetworkInterfaceID in the daemon", 1, n)
 }
